@@ -112,7 +112,7 @@ def qpdbasis_from_instruction(gate: Instruction, /) -> QPDBasis:
                 f"`to_matrix` conversion of two-qubit gate ({gate.name}) failed. "
                 "Often, this can be caused by unbound parameters."
             ) from ex
-        d = TwoQubitWeylDecomposition(mat)
+        d = TwoQubitWeylDecomposition(mat, fidelity=None)
         u = _u_from_thetavec([d.a, d.b, d.c])
         retval = _nonlocal_qpd_basis_from_u(u)
         for operations in unique_by_id(m[0] for m in retval.maps):
